@@ -50,8 +50,8 @@ Proof. intros r s m g m' t H E. exact (proj2 (regfile_no_failure_lemma r s m g m
    ([bails]: function literal, x++/x--, ++x/--x, x(..), a map literal with x as key twice,
    macro parameter of that name), otherwise the
    result is the tree in which exactly the identifiers of that name at the positions Modify
-   visits are replaced by the register ([subst_reg]; not the Function child of a call, nothing
-   under a function literal since those give up) *)
+   visits are replaced by the register ([subst_reg]; nothing under a function literal since
+   those give up) *)
 Theorem modify_register_spec : forall (name : bytes) (n : node),
   wf_node n = true ->
   modify_register name n = if bails name n then RBail else ROk (subst_reg name n).
